@@ -291,6 +291,8 @@ def run_check(pid: str, fn, tier: str, seed: int, level: str, only_key: str | No
         return chk.finish()
     except AnalysisError as e:
         _write_error_evidence(chk, str(e))
+        if os.environ.get("VERIF_DEBUG"):
+            traceback.print_exc()
         print(f"ANALYSIS-ERROR property={pid} {e}")
         return 2
     except Exception as e:
